@@ -36,7 +36,7 @@ def job_roundtrip(job):
     forms = set()
 
     def fail(rec):
-        if len(out['failures']) < 15:
+        if len(out['failures']) < 400:
             out['failures'].append(rec)
     for cfg in job['configs']:
         try:
